@@ -264,7 +264,28 @@ func VerifC20_V1Lifecycle() {
 	if memPre {
 		m.dirs[root+"/memory/p/job"] = true
 	}
+	budget := sym.Choose("mkdir_may_fail", 2) // one directory creation may be refused (EACCES)
+	m.faults = budget
 	cg, err := parent.New("job")
+	faultUsed := m.faults < budget
+	m.faults = 0
+	if err != nil {
+		// a directory creation was refused: New fails and must roll back only what it created
+		sym.Assert(faultUsed, "New failed although no step failed")
+		sym.Reach("new-failed")
+		sym.Assert(cg == nil, "a failed New must not return a handle")
+		if cpuPre {
+			sym.Assert(m.dirs[root+"/cpu/p/job"], "the rollback of a failed New removed a cpu group that existed before")
+		} else {
+			sym.Assert(!m.dirs[root+"/cpu/p/job"], "a failed New left the cpu group it had created")
+		}
+		if memPre {
+			sym.Assert(m.dirs[root+"/memory/p/job"], "the rollback of a failed New removed a memory group that existed before")
+		} else {
+			sym.Assert(!m.dirs[root+"/memory/p/job"], "a failed New left the memory group it had created")
+		}
+		return
+	}
 	sym.Assert(err == nil && cg != nil, "New must succeed")
 	if cg == nil {
 		return
